@@ -1,4 +1,5 @@
 import LicenseExpr.Lemmas.BSound
+import LicenseExpr.Lemmas.Spelled
 import LicenseExpr.Model.Api
 /-!
 # C02 — valid expressions parse to the tree fixed by grammar and precedence
@@ -55,5 +56,16 @@ theorem C02_unknown_extend (c : Cls) (st en : Nat) (strs : List Str) (t : STok) 
 /-- non-vacuity: `a or (b and c) and d` is derivable and parses to `OR(a, AND(AND(b, c), d))` -/
 example : BP.parse [BP.Tok.sym 1, .or, .lpar, .sym 2, .and, .sym 3, .rpar, .and, .sym 4]
     = .ok (.node .or [.atom 1, .node .and [.node .and [.atom 2, .atom 3], .atom 4]]) := by rfl
+
+/-- **C02 (text)**: for every syntactically valid expression — a skeleton `ts` derivable from the grammar —
+    written as a text (`SegsFor`: operators and parentheses in any letter case, every license as any
+    stored name of it in any case and spacing, a pair as license, `with`, exception; whitespace
+    arbitrary), over a table whose multi-word names contain no operator word or parenthesis, parsing
+    returns the tree the grammar and precedence fix. -/
+theorem C02_text (c : Cls) (hc : ClsOK c) (T : Table) (hop : OpWordFree c T) (hkw : KwOwned c T)
+    (ts : List (BP.Tok Atom)) (gs : List (List (Expr Atom))) (hd : BP.OrP ts gs)
+    (segs : List (Seg TVal)) (hs : SegsFor c T ts segs) (text : Str) (hcov : segPieces segs = wordPieces c text) :
+    parseFull c T false false false text = .ok (BP.orVal gs) :=
+  parse_spelled c hc T hop hkw ts segs hs text hcov _ (BP.complete hd)
 
 end LE
